@@ -50,25 +50,27 @@ def write (_cx : Ctx) (p : BootP) (region : Bytes) : Out Bytes := do
   let o ← o.write p.vend
   pure o.buffer
 
+/-- `chaddr(const HWAddress<n>&)`: copies min(n, 16) bytes; the harness passes n = 6 or n = 16 -/
+def setChaddr (h : Bytes) (v : String) : Out Bytes := do
+  let b ← hexArg v
+  if b.length == 6 || b.length == 16 then pure (patch h 28 b) else .throw .stdOther
+
 /-- the setters of the fixed header; `none` = not a header setter -/
 def setHeader (h : Bytes) : List String → Option (Out Bytes)
-  | ["opcode", v] => some (do let n ← natArg v; pure (setU8 h 0 n))
-  | ["htype", v] => some (do let n ← natArg v; pure (setU8 h 1 n))
-  | ["hlen", v] => some (do let n ← natArg v; pure (setU8 h 2 n))
-  | ["hops", v] => some (do let n ← natArg v; pure (setU8 h 3 n))
-  | ["xid", v] => some (do let n ← natArg v; pure (setBE h 4 4 n))
-  | ["secs", v] => some (do let n ← natArg v; pure (setBE h 8 2 n))
-  | ["padding", v] => some (do let n ← natArg v; pure (setBE h 10 2 n))
-  | ["ciaddr", v] => some (do let b ← hexArgN v 4; pure (patch h 12 b))
-  | ["yiaddr", v] => some (do let b ← hexArgN v 4; pure (patch h 16 b))
-  | ["siaddr", v] => some (do let b ← hexArgN v 4; pure (patch h 20 b))
-  | ["giaddr", v] => some (do let b ← hexArgN v 4; pure (patch h 24 b))
-  -- `chaddr(const HWAddress<n>&)`: copies min(n, 16) bytes; the harness passes n = 6 or n = 16
-  | ["chaddr", v] => some (do
-      let b ← hexArg v
-      if b.length == 6 || b.length == 16 then pure (patch h 28 b) else .throw .stdOther)
-  | ["sname", v] => some (do let b ← hexArgN v 64; pure (patch h 44 b))
-  | ["file", v] => some (do let b ← hexArgN v 128; pure (patch h 108 b))
+  | ["opcode", v] => some (setNum h 0 1 v)
+  | ["htype", v] => some (setNum h 1 1 v)
+  | ["hlen", v] => some (setNum h 2 1 v)
+  | ["hops", v] => some (setNum h 3 1 v)
+  | ["xid", v] => some (setNum h 4 4 v)
+  | ["secs", v] => some (setNum h 8 2 v)
+  | ["padding", v] => some (setNum h 10 2 v)
+  | ["ciaddr", v] => some (setHex h 12 4 v)
+  | ["yiaddr", v] => some (setHex h 16 4 v)
+  | ["siaddr", v] => some (setHex h 20 4 v)
+  | ["giaddr", v] => some (setHex h 24 4 v)
+  | ["chaddr", v] => some (setChaddr h v)
+  | ["sname", v] => some (setHex h 44 64 v)
+  | ["file", v] => some (setHex h 108 128 v)
   | _ => none
 
 def apply (p : BootP) (op : List String) : Out BootP :=
